@@ -98,11 +98,13 @@ CLAIMED = {
         text="Character-level Lean model of all parsers and printers (PyStr/Num/Parse: find/rfind/slicing as in the code, Python number syntax, repr of "
              "floats) tied to the code by a correspondence check on every accepted string (parse dumps field by field, both printed forms, the reading "
              "of the canonical string); Lean theorems for the erasure half (the extension-free form of descriptor / token / object / mixture / molecule "
-             "is a function of the erased structure only). The fixed-point, same-object, layout-independence, no-bar, reparse and same-seed-same-molecule "
+             "is a function of the erased structure only) and, on characters, the round trip of bond descriptors through the Python string model: "
+             "C01_desc_plain_roundtrip, C01_desc_weight_roundtrip (for every weight whose printed form reads back: decidable NumTextOK), C01_desc_empty_roundtrip "
+             "(find / rfind / count / negative-index slicing / strip / split lemmas, int(str(n)) = n). The fixed-point, same-object, layout-independence, no-bar, reparse and same-seed-same-molecule "
              "clauses are decided on the implementation by the round-trip oracle over all archetypes x 3 layouts, systems and the documented strings.",
-        note="Partial: the fixed-point / same-object clauses are not theorems on characters (fallback of DESIGN.md 7/C01): they are decided by oracle + "
-             "correspondence; masses printed after binary64 arithmetic are compared numerically (1e-9). Two defects of the pinned tree were repaired (fix: commits).",
-        technique="Lean 4 model + erasure theorems; differential correspondence on characters; round-trip oracle",
+        note="Partial: beyond bond descriptors (tokens, objects, molecules, transition lists) the fixed-point / same-object clauses are not theorems on characters "
+             "(fallback of DESIGN.md 7/C01): they are decided by oracle + correspondence; masses printed after binary64 arithmetic are compared numerically (1e-9). Two defects of the pinned tree were repaired (fix: commits).",
+        technique="Lean 4 model + erasure and descriptor round-trip theorems on characters; differential correspondence on characters; round-trip oracle",
         ref="7/C01"),
     "C02": dict(
         text="Lean 4: C02_binding_simulation (the atom_to_bond stack machine of the binding pass simulates the SMILES reading in which a descriptor is an atom, "
